@@ -125,6 +125,25 @@ func (e *Env) LogSince(seq int) []Event {
 	return out
 }
 
+// ReleaseAll drops the contents of every store and KV of the Env and its call log. perkeep's
+// process-global hub map (blobserver.GetHub) keeps every storage that was ever passed to
+// blobserver.Receive reachable, so a long run must empty what it created, or memory grows by the
+// contents of every case.
+func (e *Env) ReleaseAll() {
+	e.mu.Lock()
+	defer e.mu.Unlock()
+	for _, s := range e.Stores {
+		s.mu.Lock()
+		s.m = map[blob.Ref][]byte{}
+		s.mu.Unlock()
+	}
+	for _, k := range e.KVs {
+		k.inner = sorted.NewMemoryKeyValue()
+	}
+	e.log = nil
+	e.YieldHook, e.AfterHook, e.BeforeMut, e.Match = nil, nil, nil, nil
+}
+
 // ClearFaults removes every planned fault (not the freeze).
 func (e *Env) ClearFaults() {
 	e.mu.Lock()
